@@ -7,6 +7,7 @@ theorems below read the property off it.  With the two statements of the loop sw
 then write) `flushList_cons_fail` — the failing entry stays buffered — would be false.
 -/
 import AioMySensors.Properties.C07
+import AioMySensors.Lemmas.RelW
 
 namespace AioMySensors.C08
 open AioMySensors M C07
@@ -113,6 +114,152 @@ theorem cancellation_reaches_listener (inner : Msg → M Msg) (m : Msg) (w w' : 
     (h : inner m w = (.error (.foreign .CancelledError), w')) :
     wrapMissingNC inner m w = (.error (.foreign .CancelledError), w') :=
   wrapMissingNC_other inner m _ w w' h (by simp [missingCaught])
+
+/-! ### Nothing is lost along a whole history
+
+The relation "every entry the buffer held is still held, or was handed to the transport SUCCESSFULLY in between",
+carried through the whole receive path by the traversal of `Lemmas/RelW.lean` (whose primitive for the release loop is
+the pair "write the entry, then remove it"), for every line, version, state and schedule of failing and cancelled
+writes, and lifted to histories of receives and sends by induction. -/
+
+/-- Held before ⟹ held after, or written successfully among the new write attempts. -/
+def HeldOrWritten : W → W → Prop := fun w w' =>
+  ∃ new, w'.writes = w.writes ++ new ∧
+    ∀ k bm, w.st.sbuf.get? k = some bm → w'.st.sbuf.get? k = some bm ∨ (⟨encode bm, true⟩ : WriteEvt) ∈ new
+
+theorem heldOrWritten_preO : PreO HeldOrWritten where
+  refl := fun w => ⟨[], by simp, fun _ _ h => Or.inl h⟩
+  trans := by
+    rintro a b c ⟨n1, hw1, h1⟩ ⟨n2, hw2, h2⟩
+    refine ⟨n1 ++ n2, by rw [hw2, hw1, List.append_assoc], fun k bm h => ?_⟩
+    rcases h1 k bm h with hk | hwr
+    · rcases h2 k bm hk with hk2 | hwr2
+      · exact Or.inl hk2
+      · exact Or.inr (List.mem_append_right _ hwr2)
+    · exact Or.inr (List.mem_append_left _ hwr)
+
+/-- A state change that leaves the sleep buffer and the write log alone. -/
+theorem how_mod {f : St → St} (h : ∀ s, (f s).sbuf = s.sbuf) : Rel HeldOrWritten (modifySt f) :=
+  ⟨fun w => ⟨[], by simp [M.modifySt], fun k bm hk => Or.inl (by simpa [M.modifySt, h w.st] using hk)⟩⟩
+
+theorem how_write (line : Str) : Rel HeldOrWritten (transportWrite line) := ⟨fun w => by
+  simp only [transportWrite]
+  split <;> exact ⟨_, rfl, fun _ _ h => Or.inl h⟩⟩
+
+/-- `gateway.send(bm, message_buffer=False)`: the state is untouched; on success exactly the line of `bm` was appended
+as a successful write. -/
+theorem gwSend_unbuffered (bm : Msg) (w : W) :
+    (gwSend bm false w).2.st = w.st ∧
+    (∃ new, (gwSend bm false w).2.writes = w.writes ++ new) ∧
+    ((gwSend bm false w).1 = .ok () → (gwSend bm false w).2.writes = w.writes ++ [⟨encode bm, true⟩]) := by
+  have hw : ∀ l, (transportWrite l w).2.st = w.st ∧ (∃ new, (transportWrite l w).2.writes = w.writes ++ new) ∧
+      ((transportWrite l w).1 = .ok () → (transportWrite l w).2.writes = w.writes ++ [⟨l, true⟩]) := by
+    intro l
+    simp only [transportWrite]
+    split <;> simp
+  simp only [gwSend, M.bind, M.getSt]
+  cases (Gen.outgoingHandlers w.st.proto).lookup bm.cmd with
+  | none => exact ⟨rfl, ⟨[], by simp [M.raise]⟩, by simp [M.raise]⟩
+  | some o =>
+    cases o with
+    | none => exact ⟨rfl, ⟨[], by simp [M.raise]⟩, by simp [M.raise]⟩
+    | some ob =>
+      cases ob with
+      | direct => exact hw _
+      | set14 =>
+        cases w.st.nodes.get? bm.node with
+        | none => exact hw _
+        | some node => simpa using hw _
+
+theorem how_release (k' : Key) (bm' : Msg) : Rel HeldOrWritten (releaseOne k' bm') := ⟨fun w => by
+  obtain ⟨hst, ⟨new, hnew⟩, hok⟩ := gwSend_unbuffered bm' w
+  simp only [releaseOne, M.seq, M.bind, Gen.bufFlush]
+  cases hr : gwSend bm' false w with
+  | mk r w1 =>
+    rw [hr] at hst hnew hok
+    cases r with
+    | error e => exact ⟨new, hnew, fun k bm hk => Or.inl (by rw [hst]; exact hk)⟩
+    | ok u =>
+      have hw1 : w1.writes = w.writes ++ [⟨encode bm', true⟩] := hok rfl
+      have hst1 : w1.st = w.st := hst
+      refine ⟨[⟨encode bm', true⟩], ?_, fun k bm hk => ?_⟩
+      · simp only [eraseMod, M.modifySt]; exact hw1
+      · simp only [eraseMod, M.modifySt]
+        by_cases hg : w1.st.sbuf.get? k' = some bm'
+        · simp only [hg, if_true]
+          by_cases hkk : k = k'
+          · subst hkk
+            rw [hst1, hk] at hg
+            cases hg
+            exact Or.inr (by simp)
+          · exact Or.inl (by rw [PDict.get?_erase_ne _ hkk, hst1]; exact hk)
+        · simp only [hg, if_false]
+          exact Or.inl (by rw [hst1]; exact hk)⟩
+
+theorem heldOrWritten_stepRelW (m : Msg) : StepRelW HeldOrWritten m where
+  pre := heldOrWritten_preO
+  write := fun _ _ => how_write _
+  setNode := fun _ => how_mod fun _ => rfl
+  alloc := how_mod fun _ => rfl
+  mark := how_mod fun _ => rfl
+  unmark := how_mod fun s => by split <;> rfl
+  version := fun _ _ => how_mod fun _ => rfl
+  release := fun k bm _ => how_release k bm
+
+/-- **One iteration of `listen` loses nothing**: whatever line arrives, in whatever state, under whatever schedule of
+failing and cancelled writes, every command the buffer held is still held afterwards or was written successfully in
+this step. -/
+theorem recv_loses_nothing (env : Env) (line : Str) (w : W) : HeldOrWritten w (recv env line w).2 :=
+  (rel_recvW heldOrWritten_preO (fun _ m _ => heldOrWritten_stepRelW m) (ParkOK.of_flags reaction_flags_off) env).step w
+
+/-- No operation of the history is a `send` for the key `k` (which would replace the held command). -/
+def NoSendTo (k : Key) (ops : List Op) : Prop :=
+  ∀ op ∈ ops, match op with
+    | .send (some m) _ _ => m.key ≠ k
+    | _ => True
+
+theorem step_loses_nothing (k : Key) (bm : Msg) (st : St) (op : Op) (hheld : st.sbuf.get? k = some bm)
+    (hs : NoSendTo k [op]) :
+    (stepOp st op).1.sbuf.get? k = some bm ∨ (⟨encode bm, true⟩ : WriteEvt) ∈ (stepOp st op).2.writes := by
+  cases op with
+  | recv env line faults =>
+    obtain ⟨new, hnew, hkeep⟩ := recv_loses_nothing env line { st := st, faults := faults }
+    have hw : (recv env line { st := st, faults := faults }).2.writes = new := by simpa using hnew
+    rcases hkeep k bm hheld with h | h
+    · left
+      simp only [stepOp]
+      split <;> next heq => (rw [heq] at h; exact h)
+    · right
+      simp only [stepOp]
+      split <;> next heq => (rw [heq] at hw; simp only at hw; rw [hw]; exact h)
+  | send obj b faults =>
+    left
+    have hne : ∀ m, obj = some m → m.key ≠ k := by
+      intro m hm
+      subst hm
+      exact hs (.send (some m) b faults) (by simp)
+    have := send_keeps_other_keys obj b { st := st, faults := faults } k hne
+    simp only [stepOp]
+    split <;> next heq => (rw [heq] at this; simpa [hheld] using this)
+
+/-- **Nothing is lost, along any history.**  A command the sleep buffer holds is, after ANY history of received lines
+(of every kind, from every node, wake signals and re-presentations included) and `send` calls for other keys, under
+ANY schedule of failing and cancelled transport writes, either still held unchanged or was handed to the transport
+successfully at some step of the history.  (Failed and cancelled releases keep it for a later wake:
+`flush_under_faults`; which step writes it: `C12.held_released_at_next_wake`.) -/
+theorem nothing_lost (k : Key) (bm : Msg) (ops : List Op) (st : St) (hheld : st.sbuf.get? k = some bm)
+    (hs : NoSendTo k ops) :
+    (stateAfter st ops).sbuf.get? k = some bm ∨ ∃ obs ∈ (run st ops).2, (⟨encode bm, true⟩ : WriteEvt) ∈ obs.writes := by
+  induction ops generalizing st with
+  | nil => left; simpa [stateAfter, run] using hheld
+  | cons op ops ih =>
+    have hs1 : NoSendTo k [op] := fun o ho => hs o (by simp at ho; simp [ho])
+    have hs2 : NoSendTo k ops := fun o ho => hs o (List.mem_cons_of_mem _ ho)
+    rcases step_loses_nothing k bm st op hheld hs1 with h | h
+    · rcases ih (stepOp st op).1 h hs2 with h2 | ⟨obs, ho, hw⟩
+      · left; simpa [stateAfter, run] using h2
+      · right; exact ⟨obs, by simp [run, ho], hw⟩
+    · right; exact ⟨(stepOp st op).2, by simp [run], h⟩
 
 /-! Non-vacuity: two parked commands, the second write fails. -/
 example :
